@@ -175,7 +175,7 @@ func propC28PeerSyncStateMachine(t testing.TB) {
 		}
 		steps := rapid.IntRange(1, 18).Draw(t, "steps")
 		for i := 0; i < steps; i++ {
-			op := rapid.SampledFrom([]string{"poll", "poll", "poll", "request_poll", "connect", "connect", "disconnect", "advance", "advance", "cleanup", "cleanup", "pollAll", "pollAll", "forcePollAll", "reopen", "junk"}).Draw(t, "op")
+			op := rapid.SampledFrom([]string{"poll", "poll", "poll", "request_poll", "connect", "connect", "disconnect", "advance", "advance", "cleanup", "cleanup", "pollAll", "pollAll", "forcePollAll", "reopen", "junk", "transport"}).Draw(t, "op")
 			id := rapid.SampledFrom(ids).Draw(t, "peer")
 			pid, _ := peersync.NewPeerID(id)
 			suspicious := id == ids[3]
@@ -267,6 +267,14 @@ func propC28PeerSyncStateMachine(t testing.TB) {
 					}
 					mp.lastSeen, mp.seen = clock, true
 				}
+			case "transport":
+				// the transport starts / stops failing (unreachable peers): an attempt that fails still is a request
+				ln.mu.Lock()
+				ln.failSend = !ln.failSend
+				down := ln.failSend
+				ln.mu.Unlock()
+				classes["transport-failing"] = true
+				oplog = append(oplog, fmt.Sprintf("transport(failing=%v)", down))
 			case "connect":
 				ln.connected[id] = true
 				oplog = append(oplog, "connect("+id[:6]+")")
